@@ -28,6 +28,9 @@ def main(argv):
     elif argv and argv[0] == "--wave4":
         wave, srcroot, wtroot = "w4-", "/tmp/seed5", "/tmp/wt5"
         argv = argv[1:]
+    elif argv and argv[0] == "--wave6":
+        wave, srcroot, wtroot = "w6-", "/tmp/seed7", "/tmp/wt7"
+        argv = argv[1:]
     elif argv and argv[0] == "--wave5":
         wave, srcroot, wtroot = "w5-", "/tmp/seed6", "/tmp/wt6"
         argv = argv[1:]
